@@ -410,5 +410,6 @@ pub fn run(ctx: &Ctx) -> Report {
     report.cov("samples", json!(acc.samples));
     report.assumptions = vec!["the allocation log is written by feature-guarded hooks after the heap's own accounting; the build is the optimised (release) profile, where collection is threshold-paced".into()];
     report.violations.extend(acc.violations);
+    crate::c12::run_cyclic_family(ctx, &mut report);
     report
 }
